@@ -796,7 +796,7 @@ impl Property for C10 {
         r
     }
     fn rule(&self) -> String {
-        "proptest-generated histories: policy (LRU/LFU/FIFO), max_size 1-4, TTL none / 20-100 ms / long, store private, cloned or shared between two services of one SharedCacheLayer, 0-80/500 ops over 2-7 keys: request(key) with scripted inner ok/error and latency 0-30 ms (misses on one key overlap), advance by ms or exactly TTL-1/TTL/TTL+1; about one case in 800 is instead a real-thread stress (2-8 OS threads x 4000/30000 reads of 1-6 warm keys through their own handles on one store, nothing expires or is evicted: zero further inner calls, every read returns the stored response). Every inner response carries a fresh serial. Oracle: reference cache as a set of worlds (LFU ties: any minimum-count victim; expired entries purged before an eviction or not; exactly-at-TTL read hit or miss; LFU counts updates or not): not calling inner requires some world with a live entry whose serial is the one returned, for that key, in the same instant; calling inner requires some world without a live entry; a miss is called once and the caller gets its own result; only Ok results are stored. Non-trivial: an eviction at capacity together with an expiry-then-reinsert, an update of a present key, an LFU tie or a read exactly at the TTL; distinct by hash of the case".into()
+        "proptest-generated histories: policy (LRU/LFU/FIFO), max_size 1-4, TTL none / 20-100 ms / long, store private, cloned or shared between two services of one SharedCacheLayer, 0-80/500 ops over 2-7 keys: request(key) with scripted inner ok/error and latency 0-30 ms (misses on one key overlap), advance by ms or exactly TTL-1/TTL/TTL+1; about one case in 800 is instead a real-thread stress (2-8 OS threads x 4000/30000 reads of 1-6 warm keys through their own handles on one store, nothing expires or is evicted: zero further inner calls, every read returns the stored response). Every inner response carries a fresh serial. Oracle: reference cache as a set of worlds (LFU ties: any minimum-count victim; expired entries purged before an eviction or not; exactly-at-TTL read hit or miss; LFU counts updates or not): not calling inner requires some world with a live entry whose serial is the one returned, for that key, in the same instant; calling inner requires some world without a live entry; a miss is called once and the caller gets its own result; only Ok results are stored.Also generated: event listeners; hot-key runs of 250-300 requests for one key. Non-trivial: an eviction at capacity together with an expiry-then-reinsert, an update of a present key, an LFU tie or a read exactly at the TTL; distinct by hash of the case".into()
     }
     fn assumptions(&self) -> Vec<String> {
         vec![
